@@ -10,6 +10,7 @@ package c01
 import (
 	"context"
 	"fmt"
+	"runtime"
 	"sort"
 	"strconv"
 	"strings"
@@ -41,6 +42,10 @@ type Input struct {
 	Ops     []Op     `json:"ops,omitempty"`
 	// Monitor (optional): a monitor-level case instead of an informer-level one
 	Monitor *MonitorIn `json:"monitor,omitempty"`
+	// Stress: run the callback, one Synchronization read and the unlock as free-running
+	// goroutines (no schedule); StressSeed varies the yields
+	Stress     bool  `json:"stress,omitempty"`
+	StressSeed int64 `json:"stress_seed,omitempty"`
 }
 
 type Ev struct {
@@ -116,6 +121,9 @@ func Run(in Input) Obs {
 		return o
 	}
 	log.SetDefaultLevel(log.LevelFatal)
+	if in.Stress {
+		return runStress(in)
+	}
 	mc := &kubeeventsmanager.MonitorConfig{Kind: "ConfigMap", ApiVersion: "v1", KeepFullObjectsInMemory: true}
 	mc.Metadata.MonitorId = "m"
 	mc.Metadata.DebugName = "c01"
@@ -252,6 +260,73 @@ func Run(in Input) Obs {
 	return o
 }
 
+// runStress: free-running goroutines. The informer callback delivers the changes one after
+// the other; concurrently the Synchronization run reads the snapshot once and, a little
+// later, the unlock runs. Random yields vary the interleaving; what happened is not known,
+// the outcome is judged by C01_Spec.P_free.
+func runStress(in Input) Obs {
+	var o Obs
+	mc := &kubeeventsmanager.MonitorConfig{Kind: "ConfigMap", ApiVersion: "v1", KeepFullObjectsInMemory: true}
+	mc.Metadata.MonitorId = "m"
+	mc.Metadata.DebugName = "c01s"
+	for _, t := range in.Types {
+		mc.EventTypes = append(mc.EventTypes, watchType(t))
+	}
+	mstor := metricstorage.NewMetricStorage(context.Background(), "c01s_", true, log.NewNop())
+	inf := kubeeventsmanager.NewVerifC01Informer(mc, mstor)
+	rng := core.NewRng(in.StressSeed)
+	spin := func(n int) {
+		for i := 0; i < n; i++ {
+			runtime.Gosched()
+		}
+	}
+	wDelay := make([]int, len(in.Changes))
+	for i := range wDelay {
+		wDelay[i] = rng.Intn(4)
+	}
+	sAt, eGap := rng.Intn(len(in.Changes)*3+1), rng.Intn(6)
+	done := make(chan struct{}, 2)
+	go func() {
+		for i, c := range in.Changes {
+			spin(wDelay[i])
+			inf.Handle(watchType(c.Kind), object(c))
+		}
+		done <- struct{}{}
+	}()
+	go func() {
+		spin(sAt)
+		o.Views = append(o.Views, View{R: 0, Objs: sortedPairs(inf.Snapshot())})
+		spin(eGap)
+		o.OutBeforeE = len(inf.Events())
+		inf.Enable()
+		done <- struct{}{}
+	}()
+	for i := 0; i < 2; i++ {
+		select {
+		case <-done:
+		case <-time.After(5 * time.Second):
+			o.Note = "stress run did not finish within 5s"
+			return o
+		}
+	}
+	o.Delivered = len(in.Changes)
+	for _, e := range inf.Events() {
+		ev := Ev{Oid: -1, Proj: -1}
+		if len(e.WatchEvents) > 0 {
+			ev.Kind = string(e.WatchEvents[0])
+		}
+		if len(e.Objects) > 0 {
+			p := pairOf(e.Objects[0])
+			ev.Oid, ev.Proj = p.Oid, p.Proj
+		}
+		o.Out = append(o.Out, ev)
+	}
+	// OutBeforeE was sampled just before the unlock started: anything delivered by then is an Event before the unlock
+	o.Enabled, o.BufLen = inf.State()
+	o.Cache = sortedPairs(inf.Snapshot())
+	return o
+}
+
 // ---- rendering ----
 
 func coqKind(k string) string {
@@ -306,7 +381,11 @@ func Render(in Input, obs *Obs, crash string) core.Case {
 	}
 	c := core.Case{}
 	views := core.CoqList(o.Views, func(v View) string { return fmt.Sprintf("(%d, %s)", v.R, core.CoqList(v.Objs, coqPair)) })
-	c.Coq = fmt.Sprintf("CInf (mkIn %s %s %s)\n (mkOb %s %s %s %s %d %d %d %s)",
+	ctor := "CInf"
+	if in.Stress {
+		ctor = "CStress"
+	}
+	c.Coq = fmt.Sprintf(ctor+" (mkIn %s %s %s)\n (mkOb %s %s %s %s %d %d %d %s)",
 		core.CoqList(in.Types, coqKind), core.CoqList(in.Changes, coqChange), core.CoqList(in.Ops, coqOp),
 		core.CoqList(o.Out, coqEv), views, core.CoqList(o.Cache, coqPair), core.CoqBool(o.Enabled), o.BufLen, o.OutBeforeE, o.Delivered,
 		core.CoqBool(crash != "" || o.Note != ""))
@@ -456,6 +535,16 @@ func Gen(r *core.Rng, tier string) ([]core.In[Input], bool) {
 		n = 20000
 	case "search":
 		n = 3000
+	}
+	if tier == "search" || tier == "thorough" {
+		ns := 3000
+		if tier == "thorough" {
+			ns = 20000
+		}
+		for i := 0; i < ns; i++ {
+			nc := 3 + r.Intn(6)
+			ins = append(ins, core.In[Input]{Input: Input{Types: allTypes[r.Intn(3)], Changes: genChanges(r, nc), Stress: true, StressSeed: int64(r.Next() >> 1)}, Stream: "stress"})
+		}
 	}
 	for i := 0; i < n; i++ {
 		nc := 2 + r.Intn(7)
